@@ -207,7 +207,9 @@ def oracle_c06(tr, sc):
             kind = 'gap' if b['t'] > want else 'overlap'
             V('contiguity', 'run', f'accepted step at {b["t"]!r} follows step [{a["t"]!r}, +{a["dt"]!r}]: {kind} of {b["t"] - want:.3e}', kind=kind)
         if not same_bytes(b['u0_post'], a['uend']):
-            V('chaining', 'run', f'step at t={b["t"]!r} (block {b["block"]} slot {b["slot"]}) does not start from the end value of the previous accepted step')
+            sp = cfg['sweeper']['params']
+            lagged = P > 1 and not isinstance(sp.get('num_nodes'), list) and (sp.get('do_coll_update') or sp.get('quad_type') in ('GAUSS', 'RADAU-LEFT')) and (b['block'] == a['block'] or a['slot'] < len(ctx.blocks[a['block']]['active_slots']) - 1)
+            V('chaining', 'run', f'step at t={b["t"]!r} (block {b["block"]} slot {b["slot"]}) does not start from the end value of the previous accepted step', kind='coll_update_multistep_lag' if lagged else 'other')
     starts = [a['t'] for a in acc]
     if len(set(fbits(t) for t in starts)) != len(starts):
         V('contiguity', 'run', 'two accepted steps share a start time', kind='duplicate')
@@ -638,3 +640,152 @@ def probes_c09(tr, sc):
             break
     if res['faults'].get('estimate_tie'):
         res.probe('exact_tie_e_est_equals_e_tol')
+
+
+# =========================================================================================================== C03 / C01
+def oracle_c03(tr, sc):
+    ctx, res = tr.ctx, tr.res
+    cfg = sc['config']
+    V = lambda clause, site, detail, **ident: res.violate('C03', clause, site, detail, ident=ident)  # noqa: E731
+    if tr.exc is not None:
+        if tr.exc[0] == 'StepCapExceeded':
+            res.probe('skipped_step_cap')
+        else:
+            V('unexpected_exception', tr.exc[0], tr.exc[1])
+        return
+    K = cfg['step']['maxiter']
+    restol = cfg['level']['restol']
+    guess = cfg['sweeper']['params'].get('initial_guess', 'spread')
+    forced = {(b, s, k): w for b, s, k, w in sc['faults'].get('force', [])}
+    for rec in ctx.shadow_recs:
+        consistent = rec['iter'] > 0 or guess == 'spread'
+        if consistent and np.isfinite(rec['shadow']) and np.isfinite(rec['S']):
+            if abs(rec['reported'] - rec['shadow']) > 64 * EPS * rec['S'] + 1e-300:
+                V(
+                    'residual_not_true_defect',
+                    'Sweeper.compute_residual',
+                    f"{rec['at']} block {rec['block']} slot {rec['slot']} iter {rec['iter']}: reported residual {rec['reported']!r}, defect recomputed from the node values {rec['shadow']!r} (rounding scale {rec['S']:.2e})",
+                    at=rec['at'],
+                )
+            res.probe('residual_checked')
+    # stopping soundness at post_step
+    for rec in ctx.shadow_recs:
+        if rec['at'] != 'post_step':
+            continue
+        a2d = cfg['controller'].get('all_to_done')
+        by_budget = rec['iter'] >= K
+        flagged = any(bb in (rec['block'], -1) and (a2d or s == rec['slot']) and w == 'done' for (bb, s, k), w in forced.items())
+        r = rec['shadow'] if np.isfinite(rec['shadow']) else rec['reported']
+        margin = 64 * EPS * rec['S']
+        if rec['iter'] > K:
+            cont = any(bb in (rec['block'], -1) and (a2d or s <= rec['slot']) and w == 'continue' for (bb, s, k), w in forced.items())
+            if not cont:
+                V('iteration_budget', 'CheckConvergence', f"block {rec['block']} slot {rec['slot']}: finished with iter {rec['iter']} > maxiter {K}")
+        if by_budget or flagged:
+            if by_budget:
+                res.probe('stopped_by_maxiter')
+            continue
+        if r > restol + margin:
+            V('stopped_above_tolerance', 'it_check', f"block {rec['block']} slot {rec['slot']} finished at iter {rec['iter']} < maxiter {K} with defect {r!r} > restol {restol!r} and no force flag")
+        elif r <= restol - margin:
+            res.probe('stopped_by_residual')
+            if rec['iter'] == 0 and cfg['controller'].get('predict_type') is None:
+                # no iteration, no predictor sweep: finished without a single sweep
+                V('stopped_without_sweep', 'CheckConvergence.check_convergence', f"block {rec['block']} slot {rec['slot']} declared finished at iteration 0 without any sweep (residual {r!r} <= restol {restol!r})", kind='zero_sweeps_iter0')
+    # logged values equal what the step held
+    if tr.stats:
+        lookup = {}
+        for k, v in tr.stats.items():
+            if k.type in ('residual_post_iteration', 'residual_post_step', 'niter'):
+                lookup[(k.type, k.process, fbits(k.time), k.iter if k.type != 'residual_post_step' else None)] = v
+        for rec in ctx.shadow_recs:
+            typ = 'residual_post_iteration' if rec['at'] == 'post_iteration' else 'residual_post_step'
+            key = (typ, rec['slot'], fbits(rec['time']), rec['iter'] if typ != 'residual_post_step' else None)
+            if key in lookup and fbits(lookup[key]) != fbits(rec['reported']):
+                V('logged_residual_differs', 'DefaultHooks', f"{typ} logged {lookup[key]!r}, level held {rec['reported']!r} (block {rec['block']} slot {rec['slot']} iter {rec['iter']})")
+        for a in ctx.attempts:
+            if a.get('post'):
+                v = lookup.get(('niter', a['slot'], fbits(a['t']), a['iter']))
+                if v is None or v != a['niter_cb']:
+                    V('niter_mismatch', 'DefaultHooks.post_step', f"logged niter {v} vs {a['niter_cb']} iterations performed (block {a['block']} slot {a['slot']})")
+
+
+def oracle_c01(tr, sc):
+    ctx, res = tr.ctx, tr.res
+    cfg = sc['config']
+    V = lambda clause, site, detail, **ident: res.violate('C01', clause, site, detail, ident=ident)  # noqa: E731
+    if tr.exc is not None:
+        if tr.exc[0] == 'StepCapExceeded':
+            res.probe('skipped_step_cap')
+        else:
+            V('unexpected_exception', tr.exc[0], tr.exc[1])
+        return
+    sh = ctx.shadow
+    sp = cfg['sweeper']['params']
+    quad = sp.get('quad_type', 'RADAU-RIGHT')
+    coll_update = bool(sp.get('do_coll_update')) or quad in ('GAUSS', 'RADAU-LEFT')
+    restol = cfg['level']['restol']
+    post = {(r['block'], r['slot']): r for r in ctx.shadow_recs if r['at'] == 'post_step'}
+    acc = [a for a in ctx.attempts if a.get('post') and a.get('accepted')]
+    acc.sort(key=lambda a: (a['block'], a['slot']))
+    prev = None
+    for a in acc:
+        rec = post.get((a['block'], a['slot']))
+        if rec is None or not np.isfinite(rec['full']):
+            continue
+        # the step starts from the previous accepted step's end value (the first from the caller's value)
+        # (bitwise chaining of start values is C06's clause; here the reference simply starts from the value the step used)
+        prev = a
+        uref, kend, kappa, Un, normA = sh.reference_step(a['u0_post'], a['t'], a['dt'], coll_update)
+        tau = rec['full']
+        err = float(np.max(np.abs(np.asarray(a['uend']).reshape(-1) - uref)))
+        # defect-proportional term + rounding of the defect itself + rounding of evaluating A*U in both computations
+        bound = kend * (tau * (1 + 1e-6) + 64 * EPS * rec['S']) + 256 * EPS * (kappa + 1) * (1 + a['dt'] * normA) * max(Un, 1e-300) * (len(uref) ** 0.5 + 1)
+        converged = rec['reported'] <= restol
+        if converged:
+            res.probe('step_converged_to_tolerance')
+        else:
+            res.probe('step_not_converged_budget')
+        if err > bound:
+            V(
+                'not_collocation_solution',
+                'end value',
+                f"step at t={a['t']!r} dt={a['dt']!r} (block {a['block']} slot {a['slot']}, iter {a['iter']}): |uend - collocation solution| = {err:.3e} > kappa_end*defect + rounding = {bound:.3e} (defect {tau:.3e}, kappa_end {kend:.2e}, converged={converged})",
+                converged=converged,
+            )
+    if acc and not same_bytes(tr.ret_copy, acc[-1]['uend']):
+        V('returned_value', 'run', 'returned value is not the end value of the last step')
+
+
+def oracle_c03_injected(tr, sc):
+    """Stopping soundness under injected verdict/force patterns (the residual itself is the injected 0/1)."""
+    ctx, res = tr.ctx, tr.res
+    cfg = sc['config']
+    V = lambda clause, site, detail, **ident: res.violate('C03', clause, site, detail, ident=ident)  # noqa: E731
+    if tr.exc is not None:
+        if tr.exc[0] != 'StepCapExceeded':
+            V('unexpected_exception', tr.exc[0], tr.exc[1])
+        return
+    K = cfg['step']['maxiter']
+    a2d = cfg['controller'].get('all_to_done')
+    force = sc['faults'].get('force', [])
+    for a in ctx.attempts:
+        if not a.get('post'):
+            continue
+        b, s = a['block'], a['slot']
+        chk = a.get('checks', [])
+        if not chk:
+            continue
+        last_iter, last_res, _, _ = chk[-1]
+        done_forced = any(bb in (b, -1) and (a2d or ss == s) and w == 'done' and k <= last_iter for bb, ss, k, w in force)
+        cont_forced = sum(1 for bb, ss, k, w in force if bb in (b, -1) and (a2d or ss <= s) and w == 'continue' and k >= K)
+        if a['iter'] > K + cont_forced:
+            V('iteration_budget', 'CheckConvergence', f'block {b} slot {s}: iter {a["iter"]} > maxiter {K} with {cont_forced} forced continuation(s)')
+        if a['iter'] >= K or done_forced:
+            continue
+        if last_res > cfg['level']['restol']:
+            V('stopped_above_tolerance', 'it_check', f'block {b} slot {s} finished at iter {a["iter"]} < maxiter {K} although its last verdict was "not converged" and nothing forced it')
+        elif a['iter'] == 0 and cfg['controller'].get('predict_type') is None:
+            V('stopped_without_sweep', 'CheckConvergence.check_convergence', f'block {b} slot {s} declared finished at iteration 0 without any sweep', kind='zero_sweeps_iter0')
+        if a['iter'] != a['niter_cb']:
+            V('niter_mismatch', 'DefaultHooks.post_step', f'status.iter {a["iter"]} vs {a["niter_cb"]} iterations performed')
